@@ -826,6 +826,28 @@ pub(crate) fn check_if_response_is_matched(
         let first_last_n_total_difficulty: U256 =
             headers[reorg_count + sampled_count].total_difficulty();
 
+        // The last-n section should include all blocks whose total difficulties are not less than
+        // the difficulty boundary: no block between the sampled headers and the last-n headers
+        // could be skipped since it's neither sampled nor checked one by one.
+        {
+            let difficulty_boundary: U256 = prev_request.difficulty_boundary().unpack();
+            let first_last_n_header = &headers[reorg_count + sampled_count];
+            let previous_total_diff_before_last_n: U256 = first_last_n_header
+                .parent_chain_root()
+                .total_difficulty()
+                .unpack();
+            if previous_total_diff_before_last_n >= difficulty_boundary {
+                let errmsg = format!(
+                    "the last n headers start at block#{} but the total difficulty of its parent \
+                    ({:#x}) already reaches the difficulty boundary ({:#x})",
+                    first_last_n_header.header().number(),
+                    previous_total_diff_before_last_n,
+                    difficulty_boundary
+                );
+                return Err(StatusCode::InvalidSamples.with_context(errmsg));
+            }
+        }
+
         if log_enabled!(Level::Trace) {
             print_difficulties_distribution(prev_request, headers, &first_last_n_total_difficulty);
         }
